@@ -16,7 +16,7 @@ use syn::{Error, LitStr};
 
 pub enum PathComponent {
     Literal(String),
-    Parameter(String),
+    Parameter { name: String, regex: Option<String> },
 }
 
 pub fn parse(path_lit: &LitStr) -> Result<Vec<PathComponent>, Error> {
@@ -40,7 +40,13 @@ pub fn parse(path_lit: &LitStr) -> Result<Vec<PathComponent>, Error> {
                 .strip_prefix('{')
                 .and_then(|c| c.strip_suffix('}'))
             {
-                Some(parameter) => PathComponent::Parameter(parameter.to_string()),
+                Some(parameter) => {
+                    let mut it = parameter.splitn(2, ':');
+                    PathComponent::Parameter {
+                        name: it.next().unwrap().to_string(),
+                        regex: it.next().map(str::to_string),
+                    }
+                }
                 None => PathComponent::Literal(component.to_string()),
             }
         })
